@@ -47,7 +47,7 @@ class copy:  # noqa: N801 -- structural clone of AST nodes (much cheaper than co
 PURE_FUNCS = {
     "len", "isinstance", "id", "str", "repr", "int", "bool", "list", "tuple", "set", "dict", "sorted", "enumerate",
     "zip", "range", "min", "max", "any", "all", "sum", "iter", "getattr", "hasattr", "type", "frozenset", "reversed",
-    "OrderedDict", "chain", "__prod", "abs", "callable", "issubclass",
+    "OrderedDict", "chain", "__prod", "abs", "callable", "issubclass", "takewhile",
 }
 PURE_METHODS = {
     "get", "keys", "values", "items", "startswith", "endswith", "join", "split", "strip", "rstrip", "lstrip", "format",
@@ -58,6 +58,12 @@ PRINT_FUNCS = {"h_print", "a_print", "prints", "print", "styled_print", "style",
 MUTATORS = {
     "append", "extend", "insert", "remove", "pop", "clear", "update", "add", "setdefault", "sort", "reverse", "discard",
     "popitem", "appendleft", "popleft", "difference_update", "intersection_update",
+}
+# callee names that are neither package functions nor user callables: exception classes, file-system / regex / hashing
+# helpers, output styling, click decorators -- none of them stores to an attribute of a package object
+HARMLESS_EXTERNAL = {
+    "AssertionError", "IndexError", "TypeError", "ValueError", "KeyError", "Path", "exists", "stat", "with_suffix", "read", "write",
+    "hash", "hex", "group", "match", "reduce", "filter", "_", "_a", "err", "echo", "argument", "option", "command", "cls", "f",
 }
 JUMPS = (ast.Return, ast.Raise, ast.Continue, ast.Break)
 
@@ -127,6 +133,15 @@ class Summaries:
             changed = False
             for name in defs:
                 for c in list(self.calls[name]):
+                    if c in ("next_token", "next_tokens"):
+                        c = "_" + c  # bound-method aliases used by the drivers (next_token = self._next_token)
+                    if c == "keyword_rec":
+                        c = "__call__"  # a RegExRecognizer of the package
+                    if c not in defs and c not in classes and c not in HARMLESS_EXTERNAL and not self.unknown[name]:
+                        # a callee that is not a function of the package: a user callable (recogniser, action, filter,
+                        # recovery strategy) or a library call that is not known to be harmless
+                        self.unknown[name] = True
+                        changed = True
                     if c in defs:
                         before = (len(self.direct[name]), self.unknown[name])
                         self.direct[name] |= self.direct[c]
@@ -204,6 +219,8 @@ class Summaries:
         name = None
         if isinstance(f, ast.Name) and f.id in ("next", "super", "vars", "open", "deque"):
             return set(), False  # advances an iterator / builds an object: no attribute of an existing object changes
+        if isinstance(f, ast.Attribute) and f.attr == "__class__":
+            return self.direct.get("__init__", set()), self.unknown.get("__init__", False)  # a constructor of some package class
         if unparse(f).split(".")[0] in ("os", "re", "json", "contextlib", "logging", "logger", "itertools", "math", "operator", "sys", "path", "ast"):
             return set(), False  # standard library helpers used by the package: they do not touch its objects
         if isinstance(f, ast.Attribute):
@@ -274,6 +291,8 @@ def pure_read(e):
         return pure_read(e.elt) and all(pure_read(g.iter) and all(pure_read(i) for i in g.ifs) for g in e.generators)
     if isinstance(e, ast.DictComp):
         return pure_read(e.key) and pure_read(e.value) and all(pure_read(g.iter) and all(pure_read(i) for i in g.ifs) for g in e.generators)
+    if isinstance(e, ast.Lambda):
+        return True  # building the function object; what it reads is looked at by the conflict test
     if isinstance(e, ast.Starred):
         return pure_read(e.value)
     if isinstance(e, ast.Dict):
@@ -288,7 +307,7 @@ def pure_read(e):
     return False
 
 
-FRESH_MAKERS = {"list", "dict", "set", "sorted", "OrderedDict", "reversed", "iter", "enumerate", "zip", "frozenset", "chain", "tuple", "range"}
+FRESH_MAKERS = {"list", "dict", "set", "sorted", "OrderedDict", "reversed", "iter", "enumerate", "zip", "frozenset", "chain", "tuple", "range", "takewhile"}
 FRESH_METHODS = {"copy", "intersection", "difference", "union", "symmetric_difference", "split", "splitlines", "keys", "values", "items"}
 
 
@@ -390,8 +409,13 @@ def _unstable(e, summ):
         if isinstance(n, ast.Attribute):
             if n.attr not in summ.config_attrs:
                 return True  # (an attribute only constructors ever store to keeps its value, whoever holds the object)
-        elif isinstance(n, (ast.Subscript, ast.Call)):
+        elif isinstance(n, ast.Subscript):
             return True
+        elif isinstance(n, ast.Call):
+            if not (isinstance(n.func, ast.Name) and n.func.id in ("id", "len", "isinstance", "type", "bool", "int", "str", "repr")):
+                return True
+            if n.func.id in ("len", "str", "repr", "bool"):
+                return True  # depends on the contents of its argument
         elif isinstance(n, ast.Compare) and any(isinstance(o, (ast.In, ast.NotIn)) for o in n.ops):
             return True
     return False
@@ -658,6 +682,14 @@ def _loop_forms(st):
             and not any(_mentions(st.target.id, x) for x in st.body[1:]) and len(st.body) > 1:
         st = ast.For(target=st.body[0].targets[0], iter=st.iter, body=st.body[1:], orelse=[], lineno=getattr(st, "lineno", 0))
     it = st.iter
+    # for x in takewhile(lambda y: P(y), L): B    ->    for x in L: if not P(x): break ; B
+    if isinstance(it, ast.Call) and unparse(it.func) in ("takewhile", "itertools.takewhile") and len(it.args) == 2 and isinstance(it.args[0], ast.Lambda) \
+            and len(it.args[0].args.args) == 1 and isinstance(st.target, ast.Name):
+        lam = it.args[0]
+        cond = _Rename({lam.args.args[0].arg: st.target.id}).visit(copy.deepcopy(lam.body))
+        st = ast.For(target=st.target, iter=it.args[1], body=[ast.If(test=negate(cond), body=[ast.Break()], orelse=[])] + st.body, orelse=[],
+                     lineno=getattr(st, "lineno", 0))
+        it = st.iter
     if isinstance(it, (ast.GeneratorExp, ast.ListComp)) and len(it.generators) == 1 and isinstance(it.elt, ast.Name) and isinstance(st.target, ast.Name) \
             and isinstance(it.generators[0].target, ast.Name) and it.elt.id == it.generators[0].target.id and it.generators[0].ifs \
             and isinstance(it, ast.GeneratorExp):
@@ -756,7 +788,52 @@ def n_comp(block, owner, field):
 
 
 # --------------------------------------------------------------------------- N-flow
+class _FirstEqual(ast.NodeTransformer):
+    """where `X in L` is known:  next(c for c in L if c == X)  ->  L[L.index(X)]   (both are the first element equal to X)"""
+
+    def __init__(self, x, lst):
+        self.x, self.lst = x, lst
+
+    def visit_Call(self, node):
+        self.generic_visit(node)
+        if isinstance(node.func, ast.Name) and node.func.id == "next" and len(node.args) == 1 and isinstance(node.args[0], ast.GeneratorExp):
+            g = node.args[0]
+            if len(g.generators) == 1 and isinstance(g.elt, ast.Name) and isinstance(g.generators[0].target, ast.Name) \
+                    and g.elt.id == g.generators[0].target.id and ast.dump(g.generators[0].iter) == self.lst and len(g.generators[0].ifs) == 1:
+                c = g.generators[0].ifs[0]
+                if isinstance(c, ast.Compare) and len(c.ops) == 1 and isinstance(c.ops[0], ast.Eq) and isinstance(c.left, ast.Name) \
+                        and c.left.id == g.elt.id and ast.dump(c.comparators[0]) == self.x:
+                    lst = g.generators[0].iter
+                    return ast.Subscript(
+                        value=lst,
+                        slice=ast.Call(func=ast.Attribute(value=copy.deepcopy(lst), attr="index", ctx=ast.Load()), args=[c.comparators[0]], keywords=[]),
+                        ctx=ast.Load())
+        return node
+
+
+def _known_membership(block):
+    for st in block:
+        if isinstance(st, ast.If) and isinstance(st.test, ast.Compare) and len(st.test.ops) == 1 and pure_read(st.test.left) and pure_read(st.test.comparators[0]):
+            x, lst = ast.dump(st.test.left), ast.dump(st.test.comparators[0])
+            tr = _FirstEqual(x, lst)
+            if isinstance(st.test.ops[0], ast.NotIn):
+                # holds in the else part until something is added / removed: only the first statement reads it safely;
+                # an `elif c:` test and the first statement of its body come before any mutation of the block
+                if st.orelse:
+                    first = st.orelse[0]
+                    if isinstance(first, ast.If):
+                        first.test = tr.visit(first.test)
+                        if first.body:
+                            first.body[0] = tr.visit(first.body[0])
+                    else:
+                        st.orelse[0] = tr.visit(first)
+            elif isinstance(st.test.ops[0], ast.In) and st.body:
+                st.body[0] = tr.visit(st.body[0])
+    return block
+
+
 def n_flow(block, owner, field):
+    block = _known_membership(block)
     # `if c: T = a  else: T = b`  ->  `T = a if c else b`
     merged = []
     for st in block:
@@ -915,6 +992,146 @@ def _mention_counts(fn):
         elif isinstance(n, ast.arg):
             c[n.arg] = c.get(n.arg, 0) + 10
     return c
+
+
+def n_known(fn):
+    """`x = C` (a constant) where x is known to hold C already (assigned so earlier on every path, nothing stored
+    to x since) does nothing"""
+    def scan(block, facts):
+        out = []
+        for st in block:
+            if isinstance(st, ast.Assign) and len(st.targets) == 1 and isinstance(st.targets[0], ast.Name) and isinstance(st.value, ast.Constant):
+                x, c = st.targets[0].id, st.value.value
+                if x in facts and facts[x] == (type(c), c):
+                    continue  # redundant
+                facts[x] = (type(c), c)
+                out.append(st)
+                continue
+            # nested blocks see the facts that hold on entry
+            if isinstance(st, ast.If):
+                st.body = scan(st.body, dict(facts)) or [ast.Pass()]
+                st.orelse = scan(st.orelse, dict(facts))
+            elif isinstance(st, (ast.For, ast.While)):
+                inner = {k: v for k, v in facts.items() if not _stmt_stores(st, k)}
+                st.body = scan(st.body, dict(inner)) or [ast.Pass()]
+            elif isinstance(st, ast.With):
+                st.body = scan(st.body, dict(facts)) or [ast.Pass()]
+            for k in list(facts):
+                if _stmt_stores(st, k):
+                    del facts[k]
+            out.append(st)
+        return out
+
+    params = {a.arg for a in fn.args.args + fn.args.kwonlyargs}
+    glob = {n_ for n in ast.walk(fn) if isinstance(n, (ast.Global, ast.Nonlocal)) for n_ in n.names}
+    if not glob and not any(isinstance(n, (ast.Lambda,)) for n in ast.walk(fn)) and not any(
+            isinstance(n, ast.FunctionDef) and n is not fn for n in ast.walk(fn)):
+        fn.body = scan(fn.body, {}) or [ast.Pass()]
+    return fn
+
+
+def n_store_forward(fn, summ):
+    """X.a = E (E a side-effect free read)  ...  X.a   ->   ... E       in the statements of the same block that
+    follow, as long as nothing there can change what E or X.a yield"""
+    for owner in list(ast.walk(fn)):
+        for _, block in list(blocks_of(owner)):
+            for i, st in enumerate(block):
+                if not (isinstance(st, ast.Assign) and len(st.targets) == 1 and isinstance(st.targets[0], ast.Attribute)
+                        and isinstance(st.targets[0].value, ast.Name) and pure_read(st.value) and not fresh_value(st.value)):
+                    continue
+                path = unparse(st.targets[0])
+                e = st.value
+                both = ast.Tuple(elts=[copy.deepcopy(e), ast.Attribute(value=ast.Name(id=st.targets[0].value.id, ctx=ast.Load()), attr=st.targets[0].attr, ctx=ast.Load())], ctx=ast.Load())
+                for k in range(i + 1, len(block)):
+                    s2 = block[k]
+                    uses = [n for n in ast.walk(s2) if isinstance(n, ast.Attribute) and isinstance(n.ctx, ast.Load) and unparse(n) == path]
+                    if uses:
+                        if isinstance(s2, (ast.Assign, ast.AugAssign, ast.Expr, ast.Return)) and _simple_ok(s2, both, summ):
+                            class _R(ast.NodeTransformer):
+                                def visit_Attribute(s_, node):  # noqa: N805
+                                    if isinstance(node.ctx, ast.Load) and unparse(node) == path:
+                                        return copy.deepcopy(e)
+                                    s_.generic_visit(node)
+                                    return node
+                            block[k] = _R().visit(s2)
+                        else:
+                            break
+                    if conflicts(both, block[k], summ):
+                        break
+    return fn
+
+
+def n_ctor_alias(fn, summ):
+    """x = C(.., a, ..)  where C.__init__ stores its parameter as `self.f = p` (unconditionally, first thing it does
+    with it):  a later read `x.f` yields the argument `a` -- replaced while nothing can change either"""
+    for owner in list(ast.walk(fn)):
+        for _, block in list(blocks_of(owner)):
+            for i, st in enumerate(block):
+                if not (isinstance(st, ast.Assign) and len(st.targets) == 1 and isinstance(st.targets[0], ast.Name) and isinstance(st.value, ast.Call)
+                        and isinstance(st.value.func, ast.Name) and st.value.func.id in summ.ctor):
+                    continue
+                x = st.targets[0].id
+                init = summ.ctor[st.value.func.id]
+                params = [a.arg for a in init.args.args][1:]
+                call = st.value
+                if any(isinstance(a, ast.Starred) for a in call.args) or any(k.arg is None for k in call.keywords):
+                    continue
+                bind = {}
+                for k, a in enumerate(call.args):
+                    if k < len(params):
+                        bind[params[k]] = a
+                for k in call.keywords:
+                    bind[k.arg] = k.value
+                fields = {}
+                for s_ in init.body:
+                    if isinstance(s_, ast.Assign) and len(s_.targets) == 1 and isinstance(s_.targets[0], ast.Attribute) and isinstance(s_.targets[0].value, ast.Name) \
+                            and s_.targets[0].value.id == "self" and isinstance(s_.value, ast.Name) and s_.value.id in bind:
+                        if s_.targets[0].attr not in fields:
+                            fields[s_.targets[0].attr] = bind[s_.value.id]
+                # attributes the constructor (or anything it calls) may store again are left alone
+                later_stores = {n.attr for n in ast.walk(init) if isinstance(n, ast.Attribute) and isinstance(n.ctx, ast.Store)}
+                counts = {}
+                for n in ast.walk(init):
+                    if isinstance(n, ast.Attribute) and isinstance(n.ctx, ast.Store) and isinstance(n.value, ast.Name) and n.value.id == "self":
+                        counts[n.attr] = counts.get(n.attr, 0) + 1
+                fields = {a: v for a, v in fields.items() if counts.get(a) == 1 and pure_read(v) and not fresh_value(v)}
+                if not fields:
+                    continue
+                # the simple, global case: the field is only ever stored by constructors, the argument is a local that
+                # is bound once, and so is x: `x.f` is that local wherever it is read
+                stores_, _ = _counts(fn)
+                if stores_.get(x, 0) == 1:
+                    for a, v in list(fields.items()):
+                        if a in summ.config_attrs and isinstance(v, ast.Name) and stores_.get(v.id, 0) == 1 \
+                                and not any(isinstance(q, ast.arg) and q.arg == v.id for q in ast.walk(fn)):
+                            path = f"{x}.{a}"
+
+                            class _G(ast.NodeTransformer):
+                                def visit_Attribute(s_, node):  # noqa: N805
+                                    if isinstance(node.ctx, ast.Load) and unparse(node) == path:
+                                        return ast.Name(id=v.id, ctx=ast.Load())
+                                    s_.generic_visit(node)
+                                    return node
+                            for k in range(i + 1, len(block)):
+                                block[k] = _G().visit(block[k])
+                            del fields[a]
+                for k in range(i + 1, len(block)):
+                    s2 = block[k]
+                    for a, v in fields.items():
+                        path = f"{x}.{a}"
+                        probe = ast.Tuple(elts=[copy.deepcopy(v), ast.Attribute(value=ast.Name(id=x, ctx=ast.Load()), attr=a, ctx=ast.Load())], ctx=ast.Load())
+                        if any(isinstance(n, ast.Attribute) and isinstance(n.ctx, ast.Load) and unparse(n) == path for n in ast.walk(s2)):
+                            if isinstance(s2, (ast.Assign, ast.AugAssign, ast.Expr, ast.Return)) and _simple_ok(s2, probe, summ) and not any(
+                                    conflicts(probe, block[j], summ) for j in range(i + 1, k)):
+                                class _R(ast.NodeTransformer):
+                                    def visit_Attribute(s_, node):  # noqa: N805
+                                        if isinstance(node.ctx, ast.Load) and unparse(node) == path:
+                                            return copy.deepcopy(v)
+                                        s_.generic_visit(node)
+                                        return node
+                                block[k] = _R().visit(block[k])
+                                s2 = block[k]
+    return fn
 
 
 def n_forward(block, owner, field):
@@ -1174,7 +1391,9 @@ def _scan_uses(stmts, t, e, summ, mine, tainted):
                     return False
             if not _scan_uses(s.body, t, e, summ, mine, t1) or not _scan_uses(s.orelse, t, e, summ, mine, t2):
                 return False
-            tainted[0] = t1[0] or t2[0]
+            # a branch that ends in a jump does not continue to what follows
+            tainted[0] = (t1[0] and not ends_with_jump(s.body)) or (t2[0] and not ends_with_jump(s.orelse)) or (
+                tainted[0] and not s.orelse and False)
         elif isinstance(s, (ast.For, ast.While, ast.With, ast.Try)):
             if conflicts(e, s, summ):
                 return False
@@ -1284,6 +1503,15 @@ def _inlinable(h):
     if any(d not in ("staticmethod",) for d in decos):
         return None
     rets = [n for s in body for n in ast.walk(s) if isinstance(n, ast.Return)]
+    if len(rets) == 2 and rets[-1] is body[-1] and len(body) >= 2 and isinstance(body[-2], (ast.For, ast.While)) and not body[-2].orelse \
+            and body[-1].value is not None and isinstance(body[-1].value, ast.Constant) and rets[0].value is not None:
+        # search loop:  for ..: [if ..:] return V ;  return <constant>
+        loop = body[-2]
+        inner_loops = [n for n in ast.walk(loop) if isinstance(n, (ast.For, ast.While)) and n is not loop]
+        if not any(rets[0] in list(ast.walk(il)) for il in inner_loops) and not any(isinstance(n, (ast.Break,)) for n in ast.walk(loop)):
+            h._pgv_search_loop = True
+            return body
+        return None
     if len(rets) > 1:
         return None
     if rets and rets[0] is not body[-1]:
@@ -1354,6 +1582,37 @@ def n_helper(fn, helpers, counter):
         mapping = {loc: tag + loc for loc in locals_ | set(params)}
         pre = [ast.Assign(targets=[ast.Name(id=tag + p, ctx=ast.Store())], value=copy.deepcopy(bind[p]), lineno=0) for p in params]
         new_body = [_Rename(dict(mapping)).visit(copy.deepcopy(s)) for s in body]
+        if getattr(h, "_pgv_search_loop", False):
+            # result variable: assigned the default, overwritten (and the loop left) where the helper returned
+            res = tag + "result"
+            default = new_body[-1].value
+            loop = new_body[-2]
+
+            class _Ret(ast.NodeTransformer):
+                def _blk(s_, blk):  # noqa: N805
+                    out = []
+                    for x in blk:
+                        if isinstance(x, ast.Return):
+                            out.append(ast.Assign(targets=[ast.Name(id=res, ctx=ast.Store())], value=x.value, lineno=0))
+                            out.append(ast.Break())
+                        else:
+                            out.append(s_.visit(x))
+                    return out
+
+                def visit_If(s_, node):  # noqa: N805
+                    node.body = s_._blk(node.body)
+                    node.orelse = s_._blk(node.orelse)
+                    return node
+
+                def visit_For(s_, node):  # noqa: N805
+                    node.body = s_._blk(node.body)
+                    return node
+
+                visit_While = visit_For
+
+            loop = _Ret().visit(loop)
+            stmts = pre + new_body[:-2] + [ast.Assign(targets=[ast.Name(id=res, ctx=ast.Store())], value=default, lineno=0), loop]
+            return stmts, ast.Name(id=res, ctx=ast.Load())
         ret = None
         if new_body and isinstance(new_body[-1], ast.Return):
             ret = new_body[-1].value
@@ -1553,7 +1812,10 @@ def normal_form(fn, summ, helpers=None, canon=None):
         rewrite_blocks(fn, n_adjacent)
         n_adjacent._counts = None
         fn = n_coalesce(fn)
+        fn = n_known(fn)
         fn = n_temp(fn, summ)
+        fn = n_store_forward(fn, summ)
+        fn = n_ctor_alias(fn, summ)
         fn = _Expr().visit(fn)
     if canon is not None:
         fn = canon(fn)
